@@ -12,10 +12,13 @@
    trace_own refines trace with the set of sessions the request holds privately: a lookup the handler
    follows with a copy (cp) puts the session there, a Save of it takes it out again (the default manager
    then stores the very pointer).  A Touch of a private session leaves the stored one alone and is no
-   access to shared memory - EXCEPT for the map-valued members (Storage, AdditionalIDTokenClaims): the
-   copy is shallow, the maps stay shared with the stored session and with the copies of every other
-   request presenting the same request_uri.  With cp = nothing_copied, trace_own is trace: what a
-   handler that forgets the copy does.  No proofs here (Proofs/C20OwnProofs.v). *)
+   access to shared memory - provided the copy is DEEP for the map-valued members (Storage,
+   AdditionalIDTokenClaims, ...): since fix e2b7ce4 (defect D24) authnSessionWithPAR clones them with
+   maps.Clone next to sessionCopy := *session.  The parameter deep says whether the handler does that:
+   with deep = false (the code before the fix) the maps stay shared with the stored session and with the
+   copies of every other request presenting the same request_uri, and a Touch that changes them is an
+   unsynchronised write to shared memory.  With cp = nothing_copied, trace_own is trace: what a handler
+   that forgets the copy altogether does.  No proofs here (Proofs/C20OwnProofs.v, C20OwnGeneral.v). *)
 From Verif Require Import Base Scope Types Prog Pop Token Authorize Access.
 Local Open Scope N_scope.
 Local Open Scope string_scope.
@@ -35,6 +38,9 @@ Definition drop_session (i : id) (l : list asession) : list asession := filter (
 Section WithClients.
   Variable has_jwks_uri : id -> bool.
 
+  (* deep: the copy clones the map-valued members too (the tree with fix e2b7ce4) *)
+  Variable deep : bool.
+
   Fixpoint trace_own {A} (cp : call -> bool) (priv : list asession) (p : prog A) (s : store) : list access :=
     match p with
     | Ret _ => []
@@ -47,7 +53,7 @@ Section WithClients.
         call_accesses has_jwks_uri c s ++ trace_own cp priv' (k r) s'
     | Touch (OA x') p' =>
         match find (fun y => ideq (a_id y) (a_id x')) priv with
-        | Some y => touch_a_maps x' y ++ trace_own cp (x' :: drop_session (a_id x') priv) p' s
+        | Some y => (if deep then [] else touch_a_maps x' y) ++ trace_own cp (x' :: drop_session (a_id x') priv) p' s
         | None => touch_accesses (OA x') s ++ trace_own cp priv p' (touch (OA x') s)
         end
     | Touch o p' => touch_accesses o s ++ trace_own cp priv p' (touch o s)
